@@ -112,6 +112,7 @@ def ops_reduced():
         out.append(('save', 5, isel, 'all', 1))
     out.append(('save', 0, 'extra', 'A', 0))
     out.append(('save', 1, 'extra', 'all', 1))
+    out.append(('read',))
     return out
 
 
@@ -122,7 +123,7 @@ def ops_small():
             for vsel, rl in (('all', 12), ('A', 1)):
                 out.append(('save', ds, isel, vsel, rl))
     out += [('save', 5, 'all', 'A', 1), ('save', 5, 'dup', 'all', 12),
-            ('save', 0, 'extra', 'A', 1)]
+            ('save', 0, 'extra', 'A', 1), ('read',)]
     return out
 
 
@@ -199,6 +200,12 @@ class System:
     # ---- transition --------------------------------------------------------
     def apply(self, op, checked=True):
         from aurel import reading
+        if op[0] == 'read':
+            # a read between two saves (also when replaying a prefix): what a
+            # reader remembers about the directory must not outlive a save
+            self.last = 'read'
+            viol = self.check_probes(self.style)
+            return viol if checked else []
         _, ds, isel, vsel, rl = op
         d = make_dataset(ds)
         I = it_selection(d, isel)
@@ -345,7 +352,10 @@ class System:
 
     def canon(self):
         disk = self.disk_content()
-        return tuple(sorted((k, runner.digest(v)) for k, v in disk.items()))
+        # (whether the directory has been read since the last save is part of
+        # the state: a reader may remember what it saw)
+        return (tuple(sorted((k, runner.digest(v)) for k, v in disk.items())),
+                self.last == 'read')
 
     def outcome(self):
         return (self.last, len(self.model))
